@@ -31,6 +31,14 @@ fn instances() -> Vec<Value> {
     v.push(json!({"a": 1, "zz": 2}));
     v.push(json!({"zz": true}));
     v.push(json!({"xa": 7}));
+    v.push(json!({"x1": 5}));
+    v.push(json!({"x1": null}));
+    v.push(json!({"a": 1, "x1": null}));
+    v.push(json!({"a": 1, "x1": 2, "q": null}));
+    v.push(json!({"q": null}));
+    v.push(json!([1, true, null]));
+    v.push(json!([null]));
+    v.push(json!([1, false, 3]));
     v.push(json!({"k": [1, "x"]}));
     v.push(json!({"v": 1, "next": {"v": 2}}));
     v.push(json!({"t": "a", "v": 3}));
@@ -40,6 +48,7 @@ fn instances() -> Vec<Value> {
 
 pub fn dump_cases(path: &str) -> i32 {
     let mut schemas = jsongen::all_schemas(false);
+    schemas.extend(jsongen::intersection_schemas(true));
     for it in crate::corpus::json_items() {
         if let crate::engine::GrammarSpec::Json(s) = it.g {
             schemas.push(s);
